@@ -145,10 +145,12 @@ func Generate(g *grammar.Grammar, w Writer, opts Options) error {
 		// Post-process generated content and write it do disk.
 		outName := g.Options.FilenamePrefix + f.name
 		src := buf.String()
-		switch g.TargetLang {
-		case "go":
+		switch {
+		case strings.HasSuffix(f.name, ".y"):
+			// The Bison export is not a source file of the target language: no imports to extract.
+		case g.TargetLang == "go":
 			src = FormatGo(outName, ExtractGoImports(src))
-		case "ts":
+		case g.TargetLang == "ts":
 			src = ExtractTsImports(src)
 		}
 		if err := w.Write(outName, src); err != nil {
